@@ -105,6 +105,7 @@ fn val(key: u64, ver: u64) -> Val {
         ver,
         w: 1,
         ph: false,
+        probe: false,
     }
 }
 
